@@ -235,8 +235,147 @@ def run(chk):
     sets = [n for n in ast.walk(bw) if isinstance(n, ast.Call) and dotted(n.func) == "self.set_data" and unparse(n.args[0]) == "sh"]
     chk.ob("C13-R5", "series._temporal.Inlay._cumulate_backward[recursion]", ok and len(sets) == 1,
            "x[t+shift] = cum_func(x[t], change[t])", m.loc(bw))
+    rule_r6(chk)
     chk.assumptions = [
         "positive real domain for log/roc formulas (the domain the property quantifies over)",
         "documented formulas: diff=x-y, diff_log=log x-log y, roc=x/y, pct=100(x/y-1), annualised variants with exponent/factor a",
         "span handling of the cumulation loops on arbitrary histories is not decided",
     ]
+
+
+SER = "irispie.series.main"
+DAT = "irispie.dates"
+SELF_READS = ("span", "start", "end", "start_date", "end_date", "num_periods", "data", "periods", "range", "from_until")
+
+
+def _case_returns(f):
+    """match by: case "kw" | ...: return E  ->  {kw: E}"""
+    out = {}
+    for n in ast.walk(f):
+        if isinstance(n, ast.Match):
+            for c in n.cases:
+                pats = c.pattern.patterns if isinstance(c.pattern, ast.MatchOr) else [c.pattern]
+                rets = [x for x in c.body if isinstance(x, ast.Return)]
+                for p_ in pats:
+                    if isinstance(p_, ast.MatchValue) and isinstance(p_.value, ast.Constant) and len(rets) == 1:
+                        out[p_.value.value] = rets[0].value
+    return out
+
+
+def rule_r6(chk):
+    chk.rule("C13-R6", "keyword shifts: Series._shift_<kw> and Period.shift(<kw>) (used by the cumulators) move to the same reference "
+             "period - yoy: t - frequency.value on both sides; soy/eopy/tty: the Series method reads the data at t.create_<kw>() for "
+             "every t of its own span, Period.shift returns self.create_<kw>() - and a Series shift reads its span/start before the "
+             "first statement that mutates the series (the reference periods are those of the ORIGINAL span)", floor=10)
+    sm = chk.repo.mod(SER)
+    dm = chk.repo.mod(DAT)
+    meths = sm.methods("Series")
+    pshift = dm.methods("Period").get("shift")
+    if pshift is None:
+        raise AnalysisError("anchor vanished: dates.Period.shift")
+    chk.saw(dm, "Period.shift")
+    cases = _case_returns(pshift)
+    sbn = meths.get("_shift_by_number")
+    if sbn is None:
+        raise AnalysisError("anchor vanished: Series._shift_by_number")
+    chk.saw(sm, "Series._shift_by_number")
+    # _shift_by_number(by): start -= by   ->  new(t) = old(t + by)
+    aug = [n for n in walk_no_nested(sbn) if isinstance(n, ast.AugAssign) and unparse(n.target) == "self.start"]
+    byname = params(sbn)[1]
+    ok = len(aug) == 1 and isinstance(aug[0].op, ast.Sub) and unparse(aug[0].value) == byname
+    chk.ob("C13-R6", "series.main.Series._shift_by_number", ok if aug else None, f"self.start -= {byname}: the observation at t moves to t - {byname} "
+           "(a lag for negative values)", sm.loc(sbn))
+    wildcard = [c for n in ast.walk(pshift) if isinstance(n, ast.Match) for c in n.cases if isinstance(c.pattern, ast.MatchAs) and c.pattern.pattern is None]
+    if wildcard:
+        r = [x for x in wildcard[0].body if isinstance(x, ast.Return)]
+        ok = len(r) == 1 and unparse(r[0].value).replace(" ", "") == f"self+{params(pshift)[1]}"
+        chk.ob("C13-R6", "dates.Period.shift[integer]", ok, f"returns {unparse(r[0].value) if r else '?'} (reference period t + shift)", dm.loc(pshift))
+    kws = sorted(k[len("_shift_"):] for k in meths if k.startswith("_shift_") and k != "_shift_by_number")
+    for kw in kws:
+        f = meths[f"_shift_{kw}"]
+        chk.saw(sm, f"Series._shift_{kw}")
+        pe = cases.get(kw)
+        if pe is None:
+            chk.bad("C13-R6", f"dates.Period.shift[{kw}]", f"Series.shift accepts {kw!r} but Period.shift has no such case (cumulation with this shift breaks)", dm.loc(pshift))
+            continue
+        # ---- reference period on both sides
+        calls = calls_to_(f, "self._shift_by_number")
+        comp = [g for n in walk_no_nested(f) for g in ast.walk(n) if isinstance(g, (ast.GeneratorExp, ast.ListComp)) and
+                any(unparse(gen.iter) == "self.span" for gen in g.generators)]
+        if calls and not comp:
+            try:
+                conv = alg.ToIR(attr=lambda d: sym("F") if d == "self.frequency.value" else None)
+                series_off = conv.conv(calls[0].args[0])
+                penv = alg.ToIR(env={"self": sym("t")}, attr=lambda d: sym("F") if d == "self.frequency.value" else None)
+                period_off = sub(penv.conv(pe), sym("t"))
+                ok = alg.equal(series_off, period_off) and len(calls) == 1
+                chk.ob("C13-R6", f"series.main.Series._shift_{kw}~dates.Period.shift[{kw}]", ok,
+                       f"Series reads t + ({alg.show(series_off)}); Period.shift gives t + ({alg.show(period_off)})", sm.loc(f))
+            except Undecided as ex:
+                chk.bad("C13-R6", f"series.main.Series._shift_{kw}~dates.Period.shift[{kw}]",
+                        f"Series shifts by the constant {unparse(calls[0].args[0])} periods but Period.shift({kw!r}) = {unparse(pe)} is not a constant "
+                        f"offset ({ex}): change and cumulation use different reference periods", dm.loc(pe))
+        elif comp:
+            want = f"create_{kw}"
+            elts = set()
+            for g in comp:
+                tname = unparse(g.generators[0].target)
+                for c in ast.walk(g.elt):
+                    if isinstance(c, ast.Call) and isinstance(c.func, ast.Attribute) and unparse(c.func.value) == tname:
+                        elts.add(c.func.attr)
+            pside = unparse(pe).replace(" ", "")
+            ok = (elts == {want} and pside == f"self.{want}()") if elts and not calls else None
+            chk.ob("C13-R6", f"series.main.Series._shift_{kw}~dates.Period.shift[{kw}]", ok,
+                   f"Series reads the data at t.{sorted(elts)}() for t in self.span; Period.shift returns {pside}", sm.loc(f))
+        else:
+            chk.undecided("C13-R6", f"series.main.Series._shift_{kw}~dates.Period.shift[{kw}]", "neither a constant shift nor a map over self.span", sm.loc(f))
+        # ---- reads of the span precede the first mutation
+        mutated_at = None
+        lazy = {}
+        verdict = True
+        detail = "every read of the span/start precedes the first mutating statement"
+        for st in strip_docstring(f.body):
+            reads = [n for n in ast.walk(st) if isinstance(n, ast.Attribute) and isinstance(n.value, ast.Name) and n.value.id == "self"
+                     and n.attr in SELF_READS and isinstance(n.ctx, ast.Load)]
+            uses_lazy = [n.id for n in ast.walk(st) if isinstance(n, ast.Name) and isinstance(n.ctx, ast.Load) and n.id in lazy]
+            if mutated_at is not None and (reads or uses_lazy):
+                what = f"self.{reads[0].attr}" if reads else f"the lazy generator {uses_lazy[0]} over self.{lazy[uses_lazy[0]]}"
+                verdict = False
+                detail = (f"line {st.lineno} reads {what} after the series was already changed at line {mutated_at}: the reference periods "
+                          "are computed on the shifted span, not on the original one")
+                break
+            if isinstance(st, ast.Assign) and isinstance(st.value, ast.GeneratorExp) and isinstance(st.targets[0], ast.Name):
+                r = [n for n in ast.walk(st.value) if isinstance(n, ast.Attribute) and isinstance(n.value, ast.Name) and n.value.id == "self" and n.attr in SELF_READS]
+                if r:
+                    lazy[st.targets[0].id] = r[0].attr
+            muts = [n for n in ast.walk(st) if (isinstance(n, ast.Call) and isinstance(n.func, ast.Attribute) and isinstance(n.func.value, ast.Name)
+                                                 and n.func.value.id == "self" and n.func.attr in MUTATORS)
+                    or (isinstance(n, ast.Attribute) and isinstance(n.value, ast.Name) and n.value.id == "self" and isinstance(n.ctx, ast.Store))]
+            if muts and mutated_at is None:
+                mutated_at = st.lineno
+        chk.ob("C13-R6", f"series.main.Series._shift_{kw}[reads before writes]", verdict, detail, sm.loc(f))
+    # tty: neutral value exactly where create_tty is None
+    f = meths.get("_shift_tty")
+    if f is not None:
+        src = squash_(f)
+        neutral = [c for c in calls_to_(f, "self.set_data") if len(c.args) == 2 and unparse(c.args[1]) == "neutral_value"]
+        ok = None
+        if neutral and isinstance(neutral[0].args[0], ast.Name):
+            d = [n for n in walk_no_nested(f) if isinstance(n, ast.Assign) and unparse(n.targets[0]) == neutral[0].args[0].id]
+            ok = bool(d) and "ifttyisNone" in unparse(d[-1].value).replace(" ", "") if d else None
+        chk.ob("C13-R6", "series.main.Series._shift_tty[neutral periods]", ok,
+               "the neutral value is written exactly to the periods whose create_tty() is None (start-of-year periods of the original span)", sm.loc(f))
+    for kw in ("yoy", "soy", "eopy", "tty"):
+        if kw not in kws:
+            chk.bad("C13-R6", f"series.main.Series._shift_{kw}", "documented keyword shift has no implementation", sm.rel)
+
+
+MUTATORS = ("_shift_by_number", "set_data", "_replace_data", "_replace_start_and_values", "trim", "shift", "redate", "clip", "empty", "set_start")
+
+
+def calls_to_(f, name):
+    return [n for n in walk_no_nested(f) if isinstance(n, ast.Call) and dotted(n.func) == name]
+
+
+def squash_(f):
+    return unparse(f).replace(" ", "").replace("\n", "")
